@@ -52,6 +52,10 @@ type Scenario struct {
 	Spoofs     []Spoof       `json:"spoofs"`
 	Intrusions []Intrusion   `json:"intrusions"`
 	VanishAtMS int           `json:"vanish_at_ms"` // the legitimate peer disappears silently (0 = never)
+	// QuietAtMS (play over udp): the negotiated source stops sending at this instant while the spoofer
+	// goes on from the server's address with another port (and from other addresses): the reading
+	// client must report its UDP timeout on time (0 = never).
+	QuietAtMS int `json:"quiet_at_ms,omitempty"`
 	IdleMS     int           `json:"idle_ms"`
 	ReadMS     int           `json:"read_ms"`
 	CheckMS    int           `json:"check_ms"`
@@ -102,6 +106,17 @@ func gen(seed uint64, tier string) Scenario {
 	n.LatMaxUS = n.LatMinUS + r.Pick(0, 50, 500)
 	n.ChunkMode = r.Pick(0, 1, 3)
 	n.ChunkMaxLen = 256
+	// hash-derived so that no other choice moves
+	if x := core.HS(seed, "c19.quiet", "", 0); sc.Role == "play" && sc.Transport == "udp" && sc.VanishAtMS == 0 && x%100 < 25 {
+		sc.QuietAtMS = 300 + int((x>>8)%900)
+		if sc.ReadMS > 4000 {
+			sc.ReadMS = 4000 // the server's next sender report (10 s period) must not fall into the window
+		}
+		for i := 0; i < 3; i++ {
+			sc.Spoofs = append(sc.Spoofs, Spoof{AtMS: sc.QuietAtMS + 100 + i*sc.ReadMS/3, Count: sc.ReadMS/3/3 + 1,
+				Target: []string{"rtp", "rtcp"}[(x>>(16+uint(i)))%2], Src: []string{"same-ip-other-port", "same-ip-other-port", "other-ip-same-port"}[(x>>(24+uint(i)))%3]})
+		}
+	}
 	n.UDPIPv6Form = r.Bool(0.3) // sources reported in 16-byte (IPv4-mapped) form
 	sc.Net = n
 	return sc
@@ -130,7 +145,7 @@ func run(t *testing.T, sc Scenario) *core.Result {
 	var summary map[string]any
 	res := sys.Run(t, opts, func(w *sys.World) {
 		w.ProbeInit("spoofed_datagrams_delivered_to_socket", "legit_packets_delivered", "intrusion_rejected", "intrusion_other_ip", "intrusion_same_ip_other_conn",
-			"legit_peer_vanished", "session_expired_despite_spoofer", "ipv6_form_sources", "any_port", "stats_match_legit_traffic")
+			"legit_peer_vanished", "source_went_quiet", "client_timed_out_despite_spoofer", "session_expired_despite_spoofer", "ipv6_form_sources", "any_port", "stats_match_legit_traffic")
 		since := func() time.Duration { return time.Since(w.Log.Start()) }
 		srvNode := w.Net.Node("srv", "10.0.0.1")
 		h := sys.NewHandler(w)
@@ -212,6 +227,10 @@ func run(t *testing.T, sc Scenario) *core.Result {
 			p = gortsplib.ProtocolUDP
 		}
 		c := &gortsplib.Client{Scheme: "rtsp", Host: "10.0.0.1:8554", Protocol: &p, AnyPortEnable: sc.AnyPort}
+		if sc.QuietAtMS > 0 {
+			c.ReadTimeout = ms(sc.ReadMS) + 173
+			c.VerifSetPeriods(10*time.Second, 10*time.Second, ms(sc.CheckMS)+67)
+		}
 		sys.WireClient(c, cliNode, w.Net, nil)
 		c.OnPacketsLost = func(uint64) {}
 		c.OnDecodeError = func(error) {}
@@ -340,6 +359,10 @@ func run(t *testing.T, sc Scenario) *core.Result {
 					if sc.VanishAtMS > 0 && since() > ms(sc.VanishAtMS) {
 						break
 					}
+					if sc.QuietAtMS > 0 && since() > ms(sc.QuietAtMS) {
+						break
+					}
+					lastLegit = since()
 					stream.WritePacketRTP(desc.Medias[0], &rtp.Packet{Header: rtp.Header{Version: 2, PayloadType: 96, SequenceNumber: uint16(1000 + k), Timestamp: uint32(k * 1800)}, Payload: payload(legitMagic, k)}) //nolint:errcheck
 					sent++
 					time.Sleep(interval)
@@ -372,6 +395,23 @@ func run(t *testing.T, sc Scenario) *core.Result {
 					lastLegit = since()
 					time.Sleep(interval)
 				}
+			}
+			if sc.QuietAtMS > 0 && sc.Role == "play" {
+				// the negotiated source has gone quiet, the spoofer goes on: the client must give up
+				// ReadTimeout (+ one check period) after the last packet of the negotiated source
+				w.Probe("source_went_quiet")
+				done := make(chan error, 1)
+				go func() { done <- c.Wait() }()
+				limit := ms(sc.ReadMS) + ms(sc.CheckMS) + 2*time.Second
+				select {
+				case err := <-done:
+					w.Log.Add("cli", "wait", "%v", err)
+					w.Probe("client_timed_out_despite_spoofer")
+				case <-time.After(limit):
+					w.Fail("c19/timeout client-refreshed", "the negotiated source sent its last packet at t=%v; %v later (ReadTimeout %v + check period %v + 2 s) the reading client has still not reported a timeout while forged datagrams (from the server's address with another port / from another address) keep arriving",
+						lastLegit, limit, ms(sc.ReadMS), ms(sc.CheckMS))
+				}
+				return
 			}
 			if sc.VanishAtMS > 0 {
 				// the legitimate peer disappears without a word; the spoofer goes on
